@@ -266,3 +266,115 @@ MUTANTS = [
     dict(name="sanitize_pixels: shift bin2 only", file="create/_ingest.py", old="        chunk[bin1_field] -= 1\n", new="", checks=["pixels"]),
     dict(name="sanitize_pixels: drop keeps tril", file="create/_ingest.py", old="                chunk = chunk[~is_tril]", new="                chunk = chunk[is_tril]", checks=["pixels"]),
 ]
+
+
+# ---------------------------------------------------------------------------
+# TabixAggregator: per-bin1 fetch and bin2 assignment (the index itself is a stub with the documented fetch contract)
+# ---------------------------------------------------------------------------
+def tabix_sym(p):
+    from engine import symh5, sympysam
+    symh5.reset()
+    sc = symcooler_()
+    from symcooler.create import TabixAggregator
+    env = SymEnv()
+    bins, widths, geom, lens = _table(env, p)
+    nch = len(p["layout"])
+    names = [f"c{i}" for i in range(nch)]
+    R = p["R"]
+    one_based = bool(sym_bool("one_based"))
+    ob = 1 if one_based else 0
+    recs, zs = [], []
+    for q in range(R):
+        c1 = concretize(sym_int(f"ch1_{q}", 0, nch - 1))
+        c2 = concretize(sym_int(f"ch2_{q}", c1, nch - 1))
+        z1 = sym_int(f"z1_{q}", 0)
+        z2 = sym_int(f"z2_{q}", 0)
+        assume(and_(z1 < lens[c1], z2 < lens[c2], or_(c1 < c2, z1 <= z2)))
+        zs.append((c1, z1, c2, z2))
+        recs.append((names[c1], z1 + ob, "x", names[c2], z2 + ob))
+    # file order: sorted by (chrom1, pos1) as tabix requires
+    for a, b in zip(zs[:-1], zs[1:]):
+        assume(or_(a[0] < b[0], and_(a[0] == b[0], a[1] <= b[1])) if a[0] <= b[0] else False)
+    path = "/virtual/pairs.gz"
+    sympysam.FILES.clear()
+    sympysam.FILES[path] = dict(records=recs, contigs=names, pos_col=1, one_based=one_based)
+    from .model import sym_bins as _sb
+    cs = sc.util.get_chromsizes(bins)
+    agg = TabixAggregator(path, cs, bins, n_chunks=concretize(sym_int("n_chunks", 1, 2)), is_one_based=one_based, C2=3, P2=4)
+    out = []
+    for chunk in agg:
+        out.extend(zip(list(chunk["bin1_id"]), list(chunk["bin2_id"]), list(chunk["count"])))
+    cover("on_bin_start", or_(*[or_(*[and_(z2 == s, c2 == cc) for cc, s, e in geom if s is not 0]) for c1, z1, c2, z2 in zs]))
+    exp = [(_binof(geom, c1, z1), _binof(geom, c2, z2)) for c1, z1, c2, z2 in zs]
+    prove(ssum([x[2] for x in out]) == R, "the tabix loader does not count every record exactly once")
+    prove(and_(*[x[2] == ssum([ite(and_(e[0] == x[0], e[1] == x[1]), 1, 0) for e in exp]) for x in out]),
+          "a record is not counted in the pixel formed by the bins containing its anchors (tabix loader)")
+    prove(and_(*[or_(*[and_(e[0] == x[0], e[1] == x[1]) for x in out]) for e in exp]), "a record's pixel is missing (tabix loader)")
+    return sorted((concretize(a) if isinstance(a, SInt) else int(a), concretize(b) if isinstance(b, SInt) else int(b),
+                   concretize(c) if isinstance(c, SInt) else int(c)) for a, b, c in out)
+
+
+def symcooler_():
+    from .common import symcooler
+    return symcooler()
+
+
+def tabix_real(p, inputs):
+    import os
+    import pandas as pd
+    import pysam
+    import cooler
+    from cooler.create import TabixAggregator
+    from .common import scratch
+    layout = p["layout"]
+    nch = len(layout)
+    names = [f"c{i}" for i in range(nch)]
+    widths = real_widths(inputs, layout, p["shape"], p.get("b"))
+    bins = bins_frame(layout, widths, pd)
+    one_based = bool(inputs["one_based"])
+    ob = 1 if one_based else 0
+    R = p["R"]
+    zs = [(inputs[f"ch1_{q}"], inputs[f"z1_{q}"], inputs[f"ch2_{q}"], inputs[f"z2_{q}"]) for q in range(R)]
+    d = scratch()
+    txt = os.path.join(d, "pairs.txt")
+    for f in (txt, txt + ".gz", txt + ".gz.tbi"):
+        if os.path.exists(f):
+            os.remove(f)
+    with open(txt, "w") as f:
+        for c1, z1, c2, z2 in zs:
+            f.write(f"{names[c1]}\t{z1 + ob}\tx\t{names[c2]}\t{z2 + ob}\n")
+    pysam.tabix_compress(txt, txt + ".gz", force=True)
+    pysam.tabix_index(txt + ".gz", seq_col=0, start_col=1, end_col=1, zerobased=not one_based, force=True)
+    cs = cooler.util.get_chromsizes(bins)
+    import warnings
+    with warnings.catch_warnings():
+        warnings.simplefilter("ignore")
+        agg = TabixAggregator(txt + ".gz", cs, bins, n_chunks=inputs["n_chunks"], is_one_based=one_based, C2=3, P2=4)
+        out = []
+        for chunk in agg:
+            out.extend(zip(chunk["bin1_id"].tolist(), chunk["bin2_id"].tolist(), chunk["count"].tolist()))
+    geom = []
+    for ci, ws in enumerate(widths):
+        pos = 0
+        for w in ws:
+            geom.append((ci, pos, pos + w))
+            pos += w
+    binof = lambda c, z: [k for k, (cc, s, e) in enumerate(geom) if cc == c and s <= z < e][0]  # noqa
+    exp = {}
+    for c1, z1, c2, z2 in zs:
+        k = (binof(c1, z1), binof(c2, z2))
+        exp[k] = exp.get(k, 0) + 1
+    got = {(int(a), int(b)): int(c) for a, b, c in out}
+    if got != exp or len(out) != len(exp):
+        raise OracleFailure(f"tabix loader binned the records {zs} (zero-based) into {sorted(out)}, they fall into {exp}")
+    return sorted((int(a), int(b), int(c)) for a, b, c in out)
+
+
+CHECKS.append(
+    Check("tabix", lambda tier: [dict(layout=[2], shape="any", wmax=2, R=1), dict(layout=[1, 2], shape="any", wmax=2, R=2), dict(layout=[2, 1], shape="fixed", b=2, wmax=2, R=2)]
+          + ([dict(layout=[2, 2], shape="any", wmax=3, R=2), dict(layout=[3], shape="fixed", b=3, wmax=3, R=3)] if tier != "quick" else []),
+          tabix_sym, tabix_real, labels=("on_bin_start",),
+          doc="TabixAggregator.__iter__/aggregate/balanced_partition on symbolic sorted upper-triangle records over bin tables with symbolic widths; "
+              "the tabix index is a stub with the documented point-feature fetch contract; the real side builds and indexes a real file with pysam",
+          bounds=dict(quick="R<=2 records, <=2 chromosomes, <=3 bins, widths 1..2, 1-2 partitions, zero- and one-based", thorough="R<=3, <=4 bins"),
+          stubs=("pysam.TabixFile.fetch(chrom, s, e): records on chrom whose zero-based first position is in [s, e), in file order",), timeout=1800, split_depth=6))
